@@ -14,19 +14,19 @@ Theorem hand_modelled_sources_unchanged_C16 : PinsC16.pins = [
   ("src/pendulum/date.py::Date.first_of"%string, "8f2b871abcda685b6a69"%string);
   ("src/pendulum/date.py::Date.last_of"%string, "f8ee8c97de4b8816fbeb"%string);
   ("src/pendulum/date.py::Date.nth_of"%string, "cdc20ef6becf56a87893"%string);
-  ("src/pendulum/datetime.py::DateTime._first_of_month"%string, "b87d65a77881812a18a2"%string);
+  ("src/pendulum/datetime.py::DateTime._first_of_month"%string, "4eb6947b30be55a4efed"%string);
   ("src/pendulum/datetime.py::DateTime._first_of_quarter"%string, "6e669dbeb8ae8dc38228"%string);
   ("src/pendulum/datetime.py::DateTime._first_of_year"%string, "82c0c3388eacff32c46e"%string);
-  ("src/pendulum/datetime.py::DateTime._last_of_month"%string, "09e89425893754c9eac2"%string);
+  ("src/pendulum/datetime.py::DateTime._last_of_month"%string, "690e98e72bdcc189d3ab"%string);
   ("src/pendulum/datetime.py::DateTime._last_of_quarter"%string, "7ba61178ea43532eba10"%string);
   ("src/pendulum/datetime.py::DateTime._last_of_year"%string, "683c28c6a22fffc572cc"%string);
   ("src/pendulum/datetime.py::DateTime._nth_of_month"%string, "5048dc06f2372512c174"%string);
   ("src/pendulum/datetime.py::DateTime._nth_of_quarter"%string, "9a1e431085799667079c"%string);
   ("src/pendulum/datetime.py::DateTime._nth_of_year"%string, "aa8d0e499bb7d69991c5"%string);
-  ("src/pendulum/date.py::Date._first_of_month"%string, "6d4a3db19490b8b8a26f"%string);
+  ("src/pendulum/date.py::Date._first_of_month"%string, "d06555887d4024f9783e"%string);
   ("src/pendulum/date.py::Date._first_of_quarter"%string, "9d66bbc563ff47062845"%string);
   ("src/pendulum/date.py::Date._first_of_year"%string, "7775b4856da1288ee2e8"%string);
-  ("src/pendulum/date.py::Date._last_of_month"%string, "d26221532f85b15f4765"%string);
+  ("src/pendulum/date.py::Date._last_of_month"%string, "c4fe1f683a47b39386c7"%string);
   ("src/pendulum/date.py::Date._last_of_quarter"%string, "d4cb766fc8714f48949e"%string);
   ("src/pendulum/date.py::Date._last_of_year"%string, "dbb1a6c7edd9541b0c39"%string);
   ("src/pendulum/date.py::Date._nth_of_month"%string, "a43873b4668e9aa05ebd"%string);
